@@ -9,6 +9,11 @@ import (
 	"sort"
 )
 
+// pipelineChecks are the checks whose cases are whole designs pushed through
+// the real generators, the compiler and the runtime harness (internal/rt,
+// internal/pipeline); they are test packages run by the same driver.
+var pipelineChecks = map[string]bool{"C01": true, "C02": true, "C03": true, "C04": true, "C05": true, "C06": true, "C07": true, "C08": true, "C09": true, "C10": true, "C14": true, "C20": true}
+
 // notApplicable holds reasons for properties deliberately not claimed.
 var notApplicable = map[string]string{}
 
@@ -44,7 +49,7 @@ func writeManifest() {
 			continue
 		}
 		engine := "engine-A-library"
-		if spec.Engine == "B" {
+		if spec.Engine == "B" || pipelineChecks[id] {
 			engine = "engine-B-design-pipeline"
 			enginesB = append(enginesB, id)
 		} else {
@@ -81,7 +86,7 @@ func writeManifest() {
 		},
 		"engines": []map[string]any{
 			{"name": "engine-A-library", "path": "/verif/checks", "serves_properties": enginesA, "kind_free_text": "in-process property-based tests (pgregory.net/rapid v1.3.0: generators, stateful t.Repeat, shrinking) and native go fuzz targets against goa's runtime/library packages, compared with reference models written from the documentation"},
-			{"name": "engine-B-design-pipeline", "path": "/verif/internal/pipeline", "serves_properties": enginesB, "kind_free_text": "generated goa designs -> real goa generators from the working tree -> Go compiler -> generated server/client executed against generated values; round-trip, differential and reference-model oracles"},
+			{"name": "engine-B-design-pipeline", "path": "/verif/internal/pipeline", "serves_properties": enginesB, "kind_free_text": "test packages under /verif/checks driven by the same driver: generated goa designs -> real goa generators from the working tree -> Go compiler -> generated server/client executed against generated values; round-trip, differential and reference-model oracles"},
 		},
 		"checks":         checks,
 		"not_applicable": na,
